@@ -1,4 +1,114 @@
-(* C36 — placeholder while the pipeline is brought up *)
-From FH Require Import Model.Base Gen.GenC36 Spec.NetHttpRW Model.Adaptor.
-Example C36_ex_b22 : m_status (adaptor_resp false [WriteHeader 103; WriteHeader 201; Write (s2b "hi")]) = 201%Z.
-Proof. vm_compute. reflexivity. Qed.
+(* C36 — fasthttpadaptor handlers behave like the same handler under net/http.
+   Statements only; proofs live in Proof/AdaptorProof.v.
+
+   Full statement (response side):  forall head p, valid_prog p -> names_ok p -> resp_agree head p
+     i.e. for every handler program the final response through NewFastHTTPHandler (Model/Adaptor.v: the writer
+     state machine followed by fasthttp's ResponseHeader) has the status, the body and, name by name, the
+     handler-set fields of the final response net/http sends (Spec/NetHttpRW.v, validated against the real
+     net/http on every harness case).
+   It is FALSE of the code as it is: four witnesses below (findings late-writeheader, late-header-mutation,
+   singleton-header-collapse, content-type-on-304); it is proved under exactly the guards that exclude them.
+
+   Full statement (request side): convert_request q = spec_read_request q on every field.  FALSE for every request
+   (Host stays in r.Header): C36_convert_request_equal_refuted.  Proved: request line, protocol numbers, body,
+   and r.Host up to letter case.  The header multimap minus Host is tied by the harness only (_partial). *)
+From FH Require Import Model.Base Gen.GenC36 Spec.NetHttpRW Model.Adaptor Proof.AdaptorProof.
+Open Scope N_scope.
+
+(* For ALL handler programs over WriteHeader / Header().Add,Set,Del / Write / Flush with valid status codes and
+   header names free of CR/LF: if the program does not touch the header or the status between the moment net/http
+   commits the header and the first Flush (late_free), does not give Content-Type / Content-Encoding / Server two
+   values or an empty one (singletons_ok) and does not set Content-Type on a 304 (no_ct_on_304), then the adaptor's
+   final response equals net/http's: same status, same body (none for HEAD, 1xx, 204, 304), and for every field
+   name outside Date / Content-Length / Connection / Transfer-Encoding / Trailer the same values in the same order.
+   Informational WriteHeader calls, repeated fields, Set-Cookie, values with CR/LF or surrounding blanks,
+   WriteHeader after WriteHeader, anything after Flush are all inside the theorem. *)
+Theorem C36_final_response_equal_guarded : forall head p,
+  valid_prog p -> names_ok p -> late_free p = true ->
+  singletons_ok (rw_frozen (rw_run p)) -> no_ct_on_304 p ->
+  adaptor_panics p = false /\
+  m_status (adaptor_resp head p) = m_status (spec_resp head p) /\
+  m_body (adaptor_resp head p) = m_body (spec_resp head p) /\
+  forall n, excluded_name n = false -> f_get (m_fields (adaptor_resp head p)) n = f_get (m_fields (spec_resp head p)) n.
+Proof. exact final_response_equal. Qed.
+Print Assumptions C36_final_response_equal_guarded.
+
+(* the guards are needed: one witness per guard (each is a finding confirmed on the real code) *)
+Theorem C36_final_response_equal_refuted :
+  (exists p, valid_prog p /\ names_ok p /\ ~ resp_agree false p) /\
+  ~ resp_agree false late_status_witness /\ ~ resp_agree false late_header_witness /\
+  (late_free singleton_witness = true /\ ~ resp_agree false singleton_witness) /\
+  (late_free ct304_witness = true /\ ~ resp_agree false ct304_witness).
+Proof.
+  split; [exists late_status_witness; exact late_status_refuted|].
+  split; [apply late_status_refuted|]. split; [apply late_header_refuted|].
+  split; [split; apply singleton_refuted | split; apply ct304_refuted].
+Qed.
+Print Assumptions C36_final_response_equal_refuted.
+
+(* the repaired B22 defect: an informational WriteHeader (1xx other than 101) never changes the final status,
+   for every program that follows *)
+Theorem C36_informational_never_final : forall head p c,
+  valid_prog p -> informational c = true ->
+  m_status (adaptor_resp head (WriteHeader c :: p)) = m_status (adaptor_resp head p).
+Proof. exact informational_never_final. Qed.
+Print Assumptions C36_informational_never_final.
+
+(* header names: the exact-spelling condition the fasthttp layer needs holds for every name free of CR/LF *)
+Theorem C36_names_classified_exactly : forall k, name_ok k = true -> fhkey (canon k) = canon k /\ class_exact (canon k).
+Proof. intros k H. split; [now apply fhkey_canon|now apply class_exact_canon]. Qed.
+Print Assumptions C36_names_classified_exactly.
+
+(* ConvertRequest: method, RequestURI, URL, protocol string and numbers, body equal http.ReadRequest's for every
+   request that is not CONNECT-with-authority and speaks HTTP/1.0 or 1.1; r.Host is http.ReadRequest's Host
+   lower-cased.  PARTIAL: the header multimap (minus Host) is compared by the harness on real code only. *)
+Theorem C36_convert_request_equal_partial : forall q,
+  connect_auth q = false ->
+  (proto_10_or_11 q ->
+   let a := convert_request q in let n := spec_read_request q in
+   c_method a = c_method n /\ c_uri a = c_uri n /\ c_url a = c_url n /\ c_proto a = c_proto n /\
+   c_major a = c_major n /\ c_minor a = c_minor n /\ c_body a = c_body n) /\
+  (line_names_ok q -> (length (lines_get (q_hdrs q) hdrHost) <= 1)%nat ->
+   c_host (convert_request q) = lower_bytes (c_host (spec_read_request q))).
+Proof.
+  intros q Hc. split; [intros Hp; now apply convert_line_equal | intros Hn Hl; now apply convert_host_lowercased].
+Qed.
+Print Assumptions C36_convert_request_equal_partial.
+
+(* the full request-side statement fails for EVERY request: Host is in the adaptor's r.Header, never in net/http's *)
+Theorem C36_convert_request_equal_refuted : forall q v,
+  lines_get (q_hdrs q) hdrHost = [v] -> v <> [] ->
+  (exists r, h_get (c_hdr (convert_request q)) sHost = v :: r) /\ h_get (c_hdr (spec_read_request q)) sHost = [].
+Proof. exact convert_host_in_header. Qed.
+Print Assumptions C36_convert_request_equal_refuted.
+
+(* non-vacuity *)
+Definition ex_prog : prog :=
+  [HAdd (s2b "x-a") (s2b " 1 "); WriteHeader 103; HAdd (s2b "X-A") (s2b "2"); HSet (s2b "Content-Type") (s2b "a/b");
+   HAdd (s2b "Set-Cookie") (s2b "k=v"); HAdd (s2b "Set-Cookie") (s2b "k=w"); WriteHeader 201; WriteHeader 500;
+   Write (s2b "he"); Flush; HSet (s2b "X-Late") (s2b "z"); Write (s2b "llo")].
+Example C36_ex_guards_hold :
+  late_free ex_prog = true /\ m_status (adaptor_resp false ex_prog) = 201%Z
+  /\ m_body (adaptor_resp false ex_prog) = s2b "hello"
+  /\ f_get (m_fields (adaptor_resp false ex_prog)) (s2b "X-A") = [s2b "1"; s2b "2"]
+  /\ f_get (m_fields (spec_resp false ex_prog)) (s2b "X-A") = [s2b "1"; s2b "2"]
+  /\ f_get (m_fields (adaptor_resp false ex_prog)) (s2b "Set-Cookie") = [s2b "k=v"; s2b "k=w"]
+  /\ f_get (m_fields (adaptor_resp false ex_prog)) (s2b "X-Late") = []
+  /\ m_body (adaptor_resp true ex_prog) = [].
+Proof. vm_compute. repeat split; reflexivity. Qed.
+Example C36_ex_b22 : m_status (adaptor_resp false [WriteHeader 103; WriteHeader 201; Write (s2b "hi")]) = 201%Z
+  /\ m_body (adaptor_resp false [WriteHeader 103; WriteHeader 201; Write (s2b "hi")]) = s2b "hi".
+Proof. vm_compute. split; reflexivity. Qed.
+Example C36_ex_late : m_status (adaptor_resp false late_status_witness) = 404%Z /\ m_status (spec_resp false late_status_witness) = 200%Z
+  /\ f_get (m_fields (adaptor_resp false late_header_witness)) (s2b "X-A") = [s2b "1"]
+  /\ f_get (m_fields (spec_resp false late_header_witness)) (s2b "X-A") = [].
+Proof. vm_compute. repeat split; reflexivity. Qed.
+Definition ex_req : sreq :=
+  {| q_method := s2b "GET"; q_target := s2b "/a?b=c"; q_proto := s2b "HTTP/1.0";
+     q_hdrs := [(s2b "Host", s2b "ExAmple.COM"); (s2b "X-A", s2b "1")]; q_body := []; q_urlhost := []; q_authhost := s2b "" |}.
+Example C36_ex_b23 :
+  c_minor (convert_request ex_req) = 0%Z /\ c_host (convert_request ex_req) = s2b "example.com"
+  /\ c_host (spec_read_request ex_req) = s2b "ExAmple.COM"
+  /\ h_get (c_hdr (convert_request ex_req)) (s2b "Connection") = [s2b "close"]
+  /\ h_get (c_hdr (spec_read_request ex_req)) (s2b "Connection") = [].
+Proof. vm_compute. repeat split; reflexivity. Qed.
